@@ -3,7 +3,7 @@ from __future__ import annotations
 from copy import deepcopy
 
 from collections import defaultdict
-from dataclasses import dataclass, field
+from dataclasses import dataclass, field, fields, is_dataclass
 from functools import partial
 import hashlib
 import re
@@ -184,7 +184,13 @@ class ProcessingItemBase:
 
         if self.transformation is not None:
             content.append(str(type(self.transformation).__name__))
-            transformation_dict = getattr(self.transformation, "__dict__", {})
+            transformation_dict = dict(getattr(self.transformation, "__dict__", {}))
+            if is_dataclass(self.transformation):
+                # fields excluded from comparison (e.g. the randomly drawn default name of
+                # add_condition) are not part of the item's definition
+                for f in fields(self.transformation):
+                    if not f.compare:
+                        transformation_dict.pop(f.name, None)
             content.append(str(sorted(transformation_dict.items())))
 
         if hasattr(self, "rule_conditions") and self.rule_conditions:
